@@ -12,6 +12,7 @@ package actor
 
 //@ ghost tells(string)
 //@ ghost told(iface, mathint)
+//@ ghost toldn(mathint)
 // told(recipient, 2*typetag(message) + (system ? 1 : 0)): envelopes handed over by this goroutine, per
 // recipient value, message type and system flag
 //@ func (*Context).tell
@@ -19,6 +20,7 @@ package actor
 //@   requires recipient != nil
 //@   ghostinc tells(refPath(recipient))
 //@   ghostinc told(recipient, 2 * typetag(message) + (system ? 1 : 0))
+//@   ghostinc toldn(2 * typetag(message) + (system ? 1 : 0))
 
 // ---------------------------------------------------------------------------------------------
 // C19 event stream: the two tables are mirror images; every access under es.mu
@@ -110,3 +112,75 @@ package actor
 //@   ensures  old(h.shouldContinue) && old(h.restarting) ==> gcount(resumes, h.ctx.mailbox) == old(gcount(resumes, h.ctx.mailbox)) + 1
 //@   ensures  old(h.shouldContinue) && old(h.restarting) && h.ctx.zombie && !old(h.ctx.zombie) ==>
 //@            forall r vivid.ActorRef, k mathint :: gcount(told, r, k) == old(gcount(told, r, k))
+
+
+// ---------------------------------------------------------------------------------------------
+// C08 / C09: applying a supervision decision. Message kinds: k(T, sys) = 2*tagof(T) + (sys ? 1 : 0)
+// ---------------------------------------------------------------------------------------------
+
+//@ pure kRestart(sys bool) mathint = 2 * tagof("*RestartMessage") + (sys ? 1 : 0)
+//@ pure kKill(sys bool) mathint = 2 * tagof("*vivid.OnKill") + (sys ? 1 : 0)
+//@ pure kResume() mathint = 2 * tagof("*messages.NoneArgsCommandMessage") + 1
+//@ pure kSupervise() mathint = 2 * tagof("*supervisionContext") + 1
+//@ pure inRefs(s vivid.ActorRefs, r vivid.ActorRef) bool = exists j mathint :: 0 <= j && j < len(s) && s[j] == r
+//@ pure refsNonNil(s vivid.ActorRefs) bool = forall j mathint :: 0 <= j && j < len(s) ==> s[j] != nil
+
+//@ func (*supervisionContext).FaultStack
+//@   trusted
+
+// resume broadcast: only mailbox commands (system messages) are sent, and every target of this context gets one
+//@ func (*supervisionContext).broadcastAllTargets
+//@   trusted
+//@   requires ctx != nil && refsNonNil(c.targets)
+//@   modifies gmap(told), gmap(toldn), gmap(tells)
+//@   ensures  forall r vivid.ActorRef, k mathint :: k != 2 * typetag(message) + (system ? 1 : 0) ==> gcount(told, r, k) == old(gcount(told, r, k))
+//@   ensures  forall r vivid.ActorRef, k mathint :: gcount(told, r, k) >= old(gcount(told, r, k))
+//@   ensures  forall j mathint :: 0 <= j && j < len(c.targets) ==>
+//@            gcount(told, c.targets[j], 2 * typetag(message) + (system ? 1 : 0)) > old(gcount(told, c.targets[j], 2 * typetag(message) + (system ? 1 : 0)))
+//@   ensures  forall k mathint :: k != 2 * typetag(message) + (system ? 1 : 0) ==> gcount(toldn, k) == old(gcount(toldn, k))
+
+//@ func (*supervisionContext).applyDecision
+//@   requires ctxwf(ctx) && refsNonNil(targets) && ctx.parent != nil
+//@   modifies c.targets, c.decisionReason, gmap(told), gmap(toldn), gmap(tells), gmap(pauses)
+// Restart: one RestartMessage per entry of targets (system message iff not graceful), nothing of that kind to anybody else
+//@   ensures  vivid.dRestart(decision) ==> gcount(toldn, kRestart(!vivid.dGraceful(decision))) == old(gcount(toldn, kRestart(!vivid.dGraceful(decision)))) + len(targets)
+//@   ensures  vivid.dRestart(decision) ==> forall j mathint :: 0 <= j && j < len(targets) ==>
+//@            gcount(told, targets[j], kRestart(!vivid.dGraceful(decision))) > old(gcount(told, targets[j], kRestart(!vivid.dGraceful(decision))))
+//@   ensures  vivid.dRestart(decision) ==> forall r vivid.ActorRef :: !inRefs(targets, r) ==>
+//@            gcount(told, r, kRestart(!vivid.dGraceful(decision))) == old(gcount(told, r, kRestart(!vivid.dGraceful(decision))))
+//@   ensures  vivid.dRestart(decision) ==> forall r vivid.ActorRef, k mathint :: k != kRestart(!vivid.dGraceful(decision)) && k != kResume() ==> gcount(told, r, k) == old(gcount(told, r, k))
+// Stop: one OnKill per entry of targets, poison iff graceful
+//@   ensures  vivid.dStop(decision) ==> gcount(toldn, kKill(!vivid.dGraceful(decision))) == old(gcount(toldn, kKill(!vivid.dGraceful(decision)))) + len(targets)
+//@   ensures  vivid.dStop(decision) ==> forall j mathint :: 0 <= j && j < len(targets) ==>
+//@            gcount(told, targets[j], kKill(!vivid.dGraceful(decision))) > old(gcount(told, targets[j], kKill(!vivid.dGraceful(decision))))
+//@   ensures  vivid.dStop(decision) ==> forall r vivid.ActorRef :: !inRefs(targets, r) ==>
+//@            gcount(told, r, kKill(!vivid.dGraceful(decision))) == old(gcount(told, r, kKill(!vivid.dGraceful(decision))))
+//@   ensures  vivid.dStop(decision) ==> forall r vivid.ActorRef, k mathint :: k != kKill(!vivid.dGraceful(decision)) && k != kResume() ==> gcount(told, r, k) == old(gcount(told, r, k))
+// graceful variants and Resume: every target gets a resume command (nobody stays paused)
+//@   ensures  vivid.dGraceful(decision) || vivid.dResume(decision) ==> forall j mathint :: 0 <= j && j < len(targets) ==>
+//@            gcount(told, targets[j], kResume()) > old(gcount(told, targets[j], kResume()))
+//@   ensures  vivid.dResume(decision) ==> forall r vivid.ActorRef, k mathint :: k != kResume() ==> gcount(told, r, k) == old(gcount(told, r, k))
+// Escalate - and every value that is none of the above ("unexpected values are treated as escalate"):
+// the supervisor pauses itself and hands ONE new supervision context to its parent; nobody else is told anything
+//@   ensures  !vivid.dRestart(decision) && !vivid.dStop(decision) && !vivid.dResume(decision) ==>
+//@            gcount(pauses, ctx.mailbox) == old(gcount(pauses, ctx.mailbox)) + 1 &&
+//@            gcount(told, iface(ctx.parent), kSupervise()) == old(gcount(told, iface(ctx.parent), kSupervise())) + 1
+//@   ensures  !vivid.dRestart(decision) && !vivid.dStop(decision) && !vivid.dResume(decision) ==>
+//@            forall r vivid.ActorRef, k mathint :: (r != iface(ctx.parent) || k != kSupervise()) ==> gcount(told, r, k) == old(gcount(told, r, k))
+//@ loop (*supervisionContext).applyDecision#1
+//@   invariant -1 <= rangeindex && rangeindex < len(targets)
+//@   invariant gcount(toldn, kRestart(!isGraceful)) == old(gcount(toldn, kRestart(!isGraceful))) + rangeindex + 1
+//@   invariant forall j mathint :: 0 <= j && j <= rangeindex ==> gcount(told, targets[j], kRestart(!isGraceful)) > old(gcount(told, targets[j], kRestart(!isGraceful)))
+//@   invariant forall r vivid.ActorRef :: (forall j mathint :: 0 <= j && j <= rangeindex ==> targets[j] != r) ==> gcount(told, r, kRestart(!isGraceful)) == old(gcount(told, r, kRestart(!isGraceful)))
+//@   invariant forall r vivid.ActorRef, k mathint :: k != kRestart(!isGraceful) ==> gcount(told, r, k) == old(gcount(told, r, k))
+//@   invariant forall r vivid.ActorRef, k mathint :: gcount(told, r, k) >= old(gcount(told, r, k))
+//@   invariant gcount(pauses, ctx.mailbox) == old(gcount(pauses, ctx.mailbox))
+//@ loop (*supervisionContext).applyDecision#2
+//@   modifies nothing
+//@   invariant -1 <= rangeindex && rangeindex < len(targets)
+//@   invariant gcount(toldn, kKill(!isGraceful)) == old(gcount(toldn, kKill(!isGraceful))) + rangeindex + 1
+//@   invariant forall j mathint :: 0 <= j && j <= rangeindex ==> gcount(told, targets[j], kKill(!isGraceful)) > old(gcount(told, targets[j], kKill(!isGraceful)))
+//@   invariant forall r vivid.ActorRef :: (forall j mathint :: 0 <= j && j <= rangeindex ==> targets[j] != r) ==> gcount(told, r, kKill(!isGraceful)) == old(gcount(told, r, kKill(!isGraceful)))
+//@   invariant forall r vivid.ActorRef, k mathint :: k != kKill(!isGraceful) ==> gcount(told, r, k) == old(gcount(told, r, k))
+//@   invariant forall r vivid.ActorRef, k mathint :: gcount(told, r, k) >= old(gcount(told, r, k))
+//@   invariant gcount(pauses, ctx.mailbox) == old(gcount(pauses, ctx.mailbox))
